@@ -24,6 +24,9 @@ var (
 	TBuf    = &Type{K: "buf"}
 )
 
+// TDict is dict.Dict<K, V> (a mutable reference: dict.Add changes it in place).
+func TDict(k, v *Type) *Type { return &Type{K: "dict", E: []*Type{k, v}} }
+
 func TSlice(e *Type) *Type     { return &Type{K: "slice", E: []*Type{e}} }
 func TTuple(es ...*Type) *Type { return &Type{K: "tuple", E: es} }
 func TFunc(ps []*Type, r *Type) *Type {
@@ -54,7 +57,7 @@ func (t *Type) Equal(o *Type) bool {
 
 // FirstOrder: no function inside (printable / comparable values).
 func (t *Type) FirstOrder() bool {
-	if t.K == "func" || t.K == "buf" || t.K == "tvar" {
+	if t.K == "func" || t.K == "buf" || t.K == "tvar" || t.K == "dict" {
 		return false
 	}
 	for _, e := range t.E {
@@ -104,6 +107,8 @@ func (t *Type) Src(level int) string {
 		return "()"
 	case "buf":
 		return "buf.Buffer"
+	case "dict":
+		return "dict.Dict<" + t.E[0].Src(0) + ", " + t.E[1].Src(0) + ">"
 	case "tvar":
 		return t.Name
 	case "slice":
